@@ -343,7 +343,11 @@ func checkC13(r *kit.Run) {
 				if os.Getenv("VERIF_DEBUG") != "" {
 					fmt.Fprintf(os.Stderr, "REGEN %s => %s : %s orig=%v back=%v\n", sj, gj, jsInstances[i], v.acc[i], v2.acc[i])
 				}
-				if !v.acc[i] && strings.Contains(string(sj), `"additionalProperties"`) && (strings.Contains(string(sj), `"properties"`) || strings.Contains(string(sj), `"patternProperties"`)) {
+				if strings.Contains(string(sj), `"$ref"`) && strings.Contains(string(gj), `"type":"object","$ref"`) {
+					r.Violation("class generate-ref-with-type-object", fmt.Sprintf("schema %s is generated back as %s: a \"type\": \"object\" appears next to the root $ref, so %s is judged differently", sj, gj, jsInstances[i]), map[string]any{"schema": json.RawMessage(sj), "generated_back": json.RawMessage(gj)})
+					continue
+				}
+				if (!v.acc[i] || strings.Contains(string(sj), `"not"`)) && strings.Contains(string(sj), `"additionalProperties"`) && (strings.Contains(string(sj), `"properties"`) || strings.Contains(string(sj), `"patternProperties"`)) {
 					r.Violation("class generate-permissive-additionalProperties", fmt.Sprintf("schema %s is generated back as %s, which also accepts %s", sj, gj, jsInstances[i]), map[string]any{"schema": json.RawMessage(sj), "generated_back": json.RawMessage(gj)})
 					continue
 				}
